@@ -1,6 +1,9 @@
 import GB.C06.Proofs
 import GB.C06.ProofsSvc
 import GB.C06.Compose
+import GB.C06.ProofsElem
+import GB.C06.ProofsElemInv
+import GB.Generated.Facts
 /-
   C06 — property theorems.  `PatState` / `SvcState` are the executable models of
   routing/pattern_router.go and routing/service_router.go (GB/C06/Model.lean; the gbdriver runs the
@@ -491,3 +494,221 @@ example : routeHTTPm toyParse (fun _ => true)
     (PatState.init.run (validC toyParse) [.watch [116], .update [116] toyDesc]).static [71, 69, 84] [47, 97] =
       .found [116] 1 ⟨0, 0, some 0, [71, 69, 84], [47, 97]⟩ [] := by decide
 end
+
+
+/-! ## Element level (round 5, wave 3): `container/list` elements with their own identity
+
+  `EState` (GB/C06/Elem.lean) models `mutablePatternRoutingTable` one level below `PatState`: a list element is the serial
+  number of the `PushBack` that allocated it, a back-link (`methodPatternRoutes`) is (HTTP method, element id), and
+  `removeRoute` / `link.link.Value = …` act on the element with that ID, whoever's routes it carries.  `erase` forgets
+  the ids.  `Tied rt n ls` = the back-links `ls` of target `n` are *attached*: in the list of the link's method the
+  element with the link's id is exactly the element carrying `n`'s routes. -/
+
+/-- **One operation commutes with forgetting element identities**, from ANY element-level state whose back-links are
+    attached — not only reachable ones: the (method, target name) identification of `PatState` loses nothing. -/
+theorem C06_elem_step_refines (valid : Bytes → Bool) (st : EState) (op : Op) (ht : AllTied st) :
+    ((st.step valid op).1).erase = (st.erase.step valid op).1 ∧ (st.step valid op).2 = (st.erase.step valid op).2 :=
+  step_sim valid st op ht
+
+/-- The three primitives, for all tables: through an attached link, `lst.Remove(link)` is "drop the target's element",
+    `link.Value = v` is "replace the target's element in place"; `PushBack` needs no hypothesis. -/
+theorem C06_elem_primitives (rt : ETable) (f : Bool) (m : HMethod) (i : Nat) (g : Group)
+    (h : ∀ e ∈ sliceOf (rt m), (e.id = i ↔ e.val.name = g.name)) :
+    eCommit (eRemoveRoute rt f m i).1 = (removeRoute (eCommit rt) f m g.name).1 ∧
+    (eRemoveRoute rt f m i).2 = (removeRoute (eCommit rt) f m g.name).2 ∧
+    eCommit (eSetValue rt m i g) = setGroup (eCommit rt) m g ∧
+    (∀ j, eCommit (eAddRoute rt m j g) = addRoute (eCommit rt) m g) :=
+  ⟨(eRemoveRoute_sim rt f m i g.name h).1, (eRemoveRoute_sim rt f m i g.name h).2, eSetValue_sim rt m i g h,
+   fun j => eAddRoute_sim rt m j g⟩
+
+/-- **Whole histories**: the committed snapshot of the element-level table is the snapshot of `PatState` — hence, by
+    `C06_snapshot_is_latest`, per HTTP method exactly the routes of the latest description of every live target —
+    provided the back-links are attached after every prefix of the history. -/
+theorem C06_elem_refines_given_attached (valid : Bytes → Bool) :
+    ∀ (h : List Op) (st : EState), (∀ k, AllTied (st.run valid (h.take k))) →
+      (st.run valid h).erase = st.erase.run valid h
+  | [], st, _ => rfl
+  | op :: ops, st, hall => by
+    have h0 : AllTied st := by simpa [EState.run] using hall 0
+    have hs := (step_sim valid st op h0).1
+    have ih := C06_elem_refines_given_attached valid ops (st.step valid op).1 (fun k => by
+      have := hall (k + 1)
+      simpa [EState.run, List.take_succ_cons] using this)
+    show ((st.step valid op).1.run valid ops).erase = (st.erase.step valid op).1.run valid ops
+    rw [ih, hs]
+
+/-- **No detached element in the per-target bookkeeping, ever**: after ANY history every back-link of every target
+    points at an element that IS in the list of the link's HTTP method and carries that target's routes; ids are unique
+    inside a list and below the allocator (so a fresh `PushBack` never aliases a link). -/
+theorem C06_elem_links_attached (valid : Bytes → Bool) (h : List Op) (n : Name) :
+    let st := EState.init.run valid h
+    (∀ p ∈ sliceOf (st.links n), ∃ e ∈ sliceOf (st.routes p.1), e.id = p.2 ∧ e.val.name = n) ∧
+    (∀ m, ((sliceOf (st.routes m)).map Elem.id).Nodup ∧ ∀ e ∈ sliceOf (st.routes m), e.id < st.next) :=
+  ⟨(EInv_run valid h).att n, (EInv_run valid h).good⟩
+
+/-- … hence `Tied` for every target after ANY history: the link's id and the target's name identify the same element. -/
+theorem C06_elem_attached (valid : Bytes → Bool) (h : List Op) : AllTied (EState.init.run valid h) :=
+  AllTied_of (EInv_run valid h) (UInv_run h (PInv_init valid) UInv_init)
+
+/-- **Refinement over ALL update histories**: forgetting element identities in the element-level table after any history
+    of Watch/UpdateDesc/Close gives exactly `PatState` after that history — mutable lists, back-links (as methods),
+    committed snapshot, fault flag, watcher set. -/
+theorem C06_elem_refines (valid : Bytes → Bool) (h : List Op) :
+    (EState.init.run valid h).erase = PatState.init.run valid h :=
+  (EInv_run valid h).er
+
+/-- **The committed table of the element-level code is the table of the latest descriptions**, for every HTTP method and
+    every history: one element per live target whose LATEST description has an accepted binding for the method, holding
+    that description's routes in description order, targets in the order `orderOf` (`C06_table_order`); no nil
+    dereference happened. -/
+theorem C06_elem_snapshot_is_latest (valid : Bytes → Bool) (h : List Op) (m : HMethod) :
+    groupsOf (EState.init.run valid h).static m =
+      (orderOf (PatState.init.run valid h) m).filterMap (specGroup valid (latestOf h) m) ∧
+    (EState.init.run valid h).static = eCommit (EState.init.run valid h).routes ∧
+    (EState.init.run valid h).fault = false := by
+  have he := C06_elem_refines valid h
+  have inv := C06_pattern_invariant valid h
+  have hs : (EState.init.run valid h).static = (PatState.init.run valid h).static := by rw [← he]; rfl
+  refine ⟨by rw [hs]; exact (C06_snapshot_is_latest valid h m).1, ?_, ?_⟩
+  · rw [hs, inv.committed, ← he]; rfl
+  · have := inv.noFault; rw [← he] at this; exact this
+
+/-- **An HTTP method that disappears from a target's description and comes back** (3-step history: whatever `h` did —
+    e.g. a description WITH the method — then `d2` without, then `d3` with it again): the target's element is unlinked by
+    `d2` and a NEW element is linked at the END of the method's list by `d3` (never an update of the detached one); the
+    other targets keep their order.  Content of the list: `C06_snapshot_is_latest`. -/
+theorem C06_method_returns (valid : Bytes → Bool) (h : List Op) (m : HMethod) (d2 d3 : Desc)
+    (hn : d3.name = d2.name) (hw : (latestOf h).watched d2.name = true)
+    (h2 : built valid d2 m = none) (h3 : (built valid d3 m).isSome = true) :
+    orderOf (PatState.init.run valid (h ++ [.update d2.name d2])) m =
+      (orderOf (PatState.init.run valid h) m).filter (fun x => decide (x ≠ d2.name)) ∧
+    orderOf (PatState.init.run valid (h ++ [.update d2.name d2, .update d3.name d3])) m =
+      (orderOf (PatState.init.run valid h) m).filter (fun x => decide (x ≠ d2.name)) ++ [d2.name] := by
+  have s1 : orderOf (PatState.init.run valid (h ++ [.update d2.name d2])) m =
+      (orderOf (PatState.init.run valid h) m).filter (fun x => decide (x ≠ d2.name)) := by
+    rw [(C06_table_order valid h m).1 d2 hw]
+    simp only [h2, Option.isSome_none, Bool.false_eq_true, if_false]
+    split
+    · rfl
+    · rename_i hnm; exact (filter_ne_not_mem _ _ hnm).symm
+  refine ⟨s1, ?_⟩
+  have hw' : (latestOf (h ++ [.update d2.name d2])).watched d3.name = true := by
+    rw [latestOf_snoc, watched_update, hn]; exact hw
+  have e : h ++ [Op.update d2.name d2, Op.update d3.name d3] = (h ++ [.update d2.name d2]) ++ [.update d3.name d3] := by simp
+  have t := (C06_table_order valid (h ++ [Op.update d2.name d2]) m).1 d3 hw'
+  rw [e, t, s1, hn]
+  have hnot : d2.name ∉ (orderOf (PatState.init.run valid h) m).filter (fun x => decide (x ≠ d2.name)) := by
+    intro hm; simpa using (List.mem_filter.mp hm).2
+  simp [hnot, h3]
+
+/-! ### what goes wrong without attachedness: the seeded change C03-m9, kernel-checked
+
+  `EState.runStale`: `targetLinks` as a per-target map HTTP method → element whose entry is NOT deleted when the method
+  vanishes from the target's description (and a `removeRoute` that tolerates a missing list).  History: watch a;
+  v1 = {GET /x}; v2 = {PUT /x}; v3 = {GET /x}. -/
+
+def m9GET : Bytes := [71, 69, 84]
+def m9PUT : Bytes := [80, 85, 84]
+def m9desc (v : Nat) (hm : Bytes) : Desc := ⟨[97], v, [⟨[83], [⟨[47, 83, 47, 77], [⟨hm, [47, 120]⟩]⟩]⟩]⟩
+def m9hist : List Op :=
+  [.watch [97], .update [97] (m9desc 1 m9GET), .update [97] (m9desc 2 m9PUT), .update [97] (m9desc 3 m9GET)]
+
+/-- After v2 the stale variant keeps the back-link (GET, element 0) although element 0 is in no list any more
+    (`attachedB = false`); v3 then "updates in place" that detached element: the committed table has NO list for GET,
+    although the latest description of the live target "a" has the binding `GET /x`; its per-target map still names the
+    detached element. -/
+theorem C06_stale_link_loses_routes :
+    attachedB (EState.init.runStale (fun _ => true) (m9hist.take 3)).routes
+      (sliceOf ((EState.init.runStale (fun _ => true) (m9hist.take 3)).links [97])) = false ∧
+    (EState.init.runStale (fun _ => true) m9hist).static m9GET = none ∧
+    (EState.init.runStale (fun _ => true) m9hist).links [97] = some [(m9GET, 0), (m9PUT, 1)] ∧
+    built (fun _ => true) (m9desc 3 m9GET) m9GET = some [⟨0, 0, some 0, m9GET, [47, 120]⟩] := by
+  decide
+
+/-- The code as it is (`EState.run`): after v2 the GET link is gone, v3 allocates a NEW element (id 2) and re-links it;
+    the committed GET list is the latest description's route; all back-links are attached after every step. -/
+theorem C06_relink_after_method_returns :
+    (EState.init.run (fun _ => true) (m9hist.take 3)).links [97] = some [(m9PUT, 1)] ∧
+    (EState.init.run (fun _ => true) m9hist).links [97] = some [(m9GET, 2)] ∧
+    (EState.init.run (fun _ => true) m9hist).static m9GET = some [⟨[97], 3, [⟨0, 0, some 0, m9GET, [47, 120]⟩]⟩] ∧
+    (EState.init.run (fun _ => true) m9hist).static m9PUT = none ∧
+    (List.range 5).all (fun k =>
+      tiedB (EState.init.run (fun _ => true) (m9hist.take k)).routes [97]
+        (sliceOf ((EState.init.run (fun _ => true) (m9hist.take k)).links [97]))) = true := by
+  decide
+
+/-- `tiedB` decides `Tied` -/
+theorem C06_tiedB_iff (rt : ETable) (n : Name) (ls : List Link) : tiedB rt n ls = true ↔ Tied rt n ls := by
+  simp only [tiedB, Tied, List.all_eq_true, beq_iff_eq, decide_eq_decide]
+
+/-! ### the source statements the models were written against (regenerated by extract/c06.go on every check) -/
+
+/-- `addTarget` drops the back-link of an HTTP method that vanished from the description (`removeRoute` + `continue`
+    BEFORE the append to `newMethodLinks`), updates surviving elements in place and marks them handled, appends fresh
+    elements for the remaining methods, then overwrites `targetLinks[target.Name]`; `removeTarget` unlinks every element
+    and deletes the per-target entry; `removeRoute` deletes the map key of an emptied list; `commit` clones every list;
+    a back-link is (method, *list.Element) kept in a per-target SLICE. -/
+theorem C06_facts_table_maintenance :
+    GB.Generated.c06AddTargetStmts =
+      ["0 mt.mu.Lock()", "0 defer mt.mu.Unlock()", "0 newMethodLinks := make([]methodPatternRoutes, 0, len(routes))",
+       "0 _, link := range mt.targetLinks[target.Name]", "1 patternRoutes, ok := routes[link.method]", "1 if !ok",
+       "2 mt.removeRoute(link.method, link.link)", "2 continue",
+       "1 link.link.Value = targetPatternRoutes{target: target, routes: patternRoutes}",
+       "1 newMethodLinks = append(newMethodLinks, link)", "1 delete(routes, link.method)",
+       "0 method, patternRoutes := range routes",
+       "1 link := mt.addRoute(method, targetPatternRoutes{target: target, routes: patternRoutes})",
+       "1 newMethodLinks = append(newMethodLinks, methodPatternRoutes{method: method, link: link})",
+       "0 mt.targetLinks[target.Name] = newMethodLinks", "0 mt.static.Store(mt.commit())"] ∧
+    GB.Generated.c06RemoveTargetStmts =
+      ["0 mt.mu.Lock()", "0 defer mt.mu.Unlock()", "0 _, link := range mt.targetLinks[target]",
+       "1 mt.removeRoute(link.method, link.link)", "0 delete(mt.targetLinks, target)", "0 mt.static.Store(mt.commit())"] ∧
+    GB.Generated.c06RemoveRouteStmts =
+      ["0 lst := mt.routes[method]", "0 lst.Remove(link)", "0 if lst.Len() == 0", "1 delete(mt.routes, method)"] ∧
+    GB.Generated.c06AddRouteStmts =
+      ["0 lst, ok := mt.routes[method]", "0 if !ok", "1 lst = list.New()", "1 mt.routes[method] = lst",
+       "0 return lst.PushBack(route)"] ∧
+    GB.Generated.c06CommitStmts =
+      ["0 routes := make(map[string]*list.List, len(mt.routes))", "0 method, list := range mt.routes",
+       "1 routes[method] = cloneLinkedList(list)", "0 return &staticPatternRoutingTable{routes: routes}"] ∧
+    "methodPatternRoutes.link *list.Element" ∈ GB.Generated.c06TableFields ∧
+    "mutablePatternRoutingTable.targetLinks map[string][]methodPatternRoutes" ∈ GB.Generated.c06TableFields := by
+  decide
+
+/-- `C06_method_returns` applies to the C03-m9 history (hypotheses satisfiable) and gives the GET list `["a"]` -/
+example : orderOf (PatState.init.run (fun _ => true) m9hist) m9GET = [[97]] := by
+  have h := (C06_method_returns (fun _ => true) [.watch [97], .update [97] (m9desc 1 m9GET)] m9GET (m9desc 2 m9PUT)
+    (m9desc 3 m9GET) rfl (by decide) (by decide) (by decide)).2
+  have e : orderOf (PatState.init.run (fun _ => true) [.watch [97], .update [97] (m9desc 1 m9GET)]) m9GET = [[97]] := by decide
+  rw [e] at h
+  exact h
+
+/-- **A target re-added after removal** (Close, Watch, UpdateDesc under the same name, after any history): Close unlinks it from
+    every list, the new description links NEW elements at the END of the lists of the HTTP methods it has accepted
+    bindings for — it does not get its old place back, nothing of the old description survives (`C06_snapshot_is_latest`). -/
+theorem C06_target_returns (valid : Bytes → Bool) (h : List Op) (m : HMethod) (d : Desc)
+    (hw : (latestOf h).watched d.name = true) (hb : (built valid d m).isSome = true) :
+    orderOf (PatState.init.run valid (h ++ [.close d.name])) m =
+      (orderOf (PatState.init.run valid h) m).filter (fun x => decide (x ≠ d.name)) ∧
+    orderOf (PatState.init.run valid (h ++ [.close d.name, .watch d.name, .update d.name d])) m =
+      (orderOf (PatState.init.run valid h) m).filter (fun x => decide (x ≠ d.name)) ++ [d.name] := by
+  have s1 := (C06_table_order valid h m).2.1 d.name hw
+  refine ⟨s1, ?_⟩
+  have s2 := (C06_table_order valid (h ++ [Op.close d.name]) m).2.2.1 d.name
+  have hw3 : (latestOf (h ++ [Op.close d.name] ++ [Op.watch d.name])).watched d.name = true := by
+    rw [latestOf_snoc, watched_watch]; simp
+  have s3 := (C06_table_order valid (h ++ [Op.close d.name] ++ [Op.watch d.name]) m).1 d hw3
+  have e : h ++ [Op.close d.name, Op.watch d.name, Op.update d.name d] =
+      h ++ [Op.close d.name] ++ [Op.watch d.name] ++ [Op.update d.name d] := by simp
+  rw [e, s3, s2, s1]
+  have hnot : d.name ∉ (orderOf (PatState.init.run valid h) m).filter (fun x => decide (x ≠ d.name)) := by
+    intro hm; simpa using (List.mem_filter.mp hm).2
+  simp [hnot, hb]
+
+/-- **The same binding repeated in one description** stays repeated in the built routes, in description order, each with its
+    own binding index (the lookup returns the first, `firstDecisive`); nothing is deduplicated on the way into the table. -/
+theorem C06_repeated_binding_kept (valid : Bytes → Bool) (si mi k : Nat) (b : Binding) (bs : List Binding)
+    (hv : valid b.pattern = true) :
+    bindingRoutes valid si mi (b :: b :: bs) k =
+      ⟨si, mi, some k, b.httpMethod, b.pattern⟩ :: ⟨si, mi, some (k + 1), b.httpMethod, b.pattern⟩ ::
+        bindingRoutes valid si mi bs (k + 2) := by
+  simp [bindingRoutes, hv]
